@@ -121,7 +121,8 @@ Jobs_C20 ==
        ELSE <<Sweep("a2r", tg, ZMax(TMin(t), ZN(-1200)), ZN(1200), 1)>> \o S2Q({Call("a2r", <<tg>>, <<n>>) : n \in IntLm(tg)}))
       \o <<Sweep("a2r", tg, ZMax(TMin(t), ZN(-3)), ZMin(TMax(t), ZN(363)), 1)>>
       \o FlatSeq([f \in 1..3 |-> <<Sweep(<<"sin_angle", "cos_angle", "tan_angle">>[f], tg, ZMax(TMin(t), ZN(-360)), ZMin(TMax(t), ZN(360)), 1)>>])])
-   \o FlatSeq([f \in 1..3 |-> <<SweepZ(<<"sin_angle", "cos_angle", "tan_angle">>[f], "fx", ZN(-360) ** OneFx, ZN(360) ** OneFx, OneFx)>>])
+   \o FlatSeq([f \in 1..3 |-> <<SweepZ(<<"sin_angle", "cos_angle", "tan_angle">>[f], "fx", ZN(-360) ** OneFx, ZN(360) ** OneFx, OneFx),
+                                 Sweep(<<"sin_angle_all", "cos_angle_all", "tan_angle_all">>[f], "i32", ZN(-360), ZN(360), 1)>>])
 
 (* ---- C05 ------------------------------------------------------------------------------------------ *)
 B32(sg, E, M) == (IF sg = 1 THEN P(31) ELSE Z0) ++ ZShl(ZN(E), 23) ++ M
@@ -153,6 +154,9 @@ Jobs_C05 ==
         RandB("rt_d", <<"fx">>, NR(10000, 400000), Seed + 9, 47), Sweep("rt_d", "fx", ZNeg(P(17)), P(17), NR(11, 1)),
         Sweep("rt_d", "fx", DomLim -- ZN(2000), DomLim -- Z1, 1), Sweep("rt_d", "fx", ZNeg(DomLim) ++ Z1, ZNeg(DomLim) ++ ZN(2000), 1)>>
    \o S2Q({Call(op, <<"fx">>, <<x>>) : op \in {"f2d", "f2f", "rt_d"}, x \in LmFinite})
+
+(* float carriers of a degree count (C20) *)
+Jobs_C20F == S2Q({CallF(op, "f32", FV(F32, s, ZN(d), 0), "") : op \in {"sin_angle", "cos_angle", "tan_angle"}, s \in {1, -1}, d \in {0, 1, 30, 45, 89, 90, 91, 179, 180, 270, 359, 360}})
 
 (* ---- C16 ------------------------------------------------------------------------------------------ *)
 FxC16 == IF Thorough THEN PM({Z0, Z1, ZN(65535), ZN(65536), ZN(98304), ZN(3) ** OneFx, P(31), P(32), P(46), P(47) -- Z1, P(47), P(48), P(55), P(56), P(62), Maxv,
@@ -246,6 +250,6 @@ Jobs_C07 ==
 
 JobsForT(p) ==
    CASE p = "C09" -> Jobs_C09 [] p = "C10" -> Jobs_C10 [] p = "C11" -> Jobs_C11 [] p = "C12" -> Jobs_C12
-     [] p = "C14" -> Jobs_C14 [] p = "C19" -> Jobs_C19 [] p = "C20" -> Jobs_C20
+     [] p = "C14" -> Jobs_C14 [] p = "C19" -> Jobs_C19 [] p = "C20" -> Jobs_C20 \o Jobs_C20F
      [] p = "C05" -> Jobs_C05 [] p = "C16" -> Jobs_C16 [] p = "C17" -> Jobs_C17 [] p = "C07" -> Jobs_C07
 =============================================================================
